@@ -1,5 +1,6 @@
 import LentilVerif.Model.Fourier
 import LentilVerif.Gen.Window
+import LentilVerif.Gen.PropagateMeta
 /-! Executable model of `lentil.propagate.propagate_dft` / `propagate_fft` and `Wavefront.field`, generic in the value
 type. The integer window logic is the *generated* kernel `Gen.dftWindow`, `Gen.maskShape`, `Gen.maskShift`
 (re-translated from lentil/propagate.py on every run); the float/array plumbing is written by hand and tied to the
@@ -8,9 +9,14 @@ namespace Lentil
 
 variable {K R : Type}
 
-/-- `lentil.propagate._dft_alpha(dx, du, wavelength, z, oversample)` -/
-def dftAlpha [Mul R] [Div R] [RealLike R] (dx0 dx1 du0 du1 wl z : R) (os : Int) : R × R :=
-  ((dx0 * du0) / (wl * z * RealLike.ofInt os), (dx1 * du1) / (wl * z * RealLike.ofInt os))
+/-- the `alpha` of `propagate_dft`: `_dft_alpha(dx=wavefront.pixelscale, du=pixelscale, z=wavefront.focal_length,
+wavelength=wavefront.wavelength, oversample)` — generated (`Gen.dftAlphaCall`, `Gen.dftAlpha`) -/
+def dftAlpha [Add R] [Sub R] [Mul R] [Div R] [RealLike R] (dx0 dx1 du0 du1 wl z : R) (os : Int) : R × R :=
+  Gen.dftAlphaCall dx0 dx1 du0 du1 wl z (RealLike.ofInt os)
+
+/-- metadata of the wavefront returned by `propagate_dft` (generated hand-over): wavelength, pixelscale, focal length -/
+def dftMeta [Add R] [Sub R] [Mul R] [Div R] [RealLike R] (dx0 dx1 du0 du1 wl z : R) (os : Int) : R × (R × R) × R :=
+  Gen.dftOutMeta dx0 dx1 du0 du1 wl z (RealLike.ofInt os)
 
 /-- `out_extent` of `propagate_dft`: the whole (oversampled) output array, or the bounding box of the mask.
 `mask = some b`: `b = lentil.boundary(mask)` = (first, last) row and column index of the mask's support -/
@@ -57,7 +63,8 @@ def propagateField (t : TField K R) (αr αc : R) (oe : Extent) (P0 P1 : Int) : 
 /-- `propagate_dft(wavefront, pixelscale, shape=(S0,S1), prop_shape=(P0,P1), oversample=os, mask)`: the list of
 output fields (`alpha` is computed by `dftAlpha`) -/
 def propagateDft (fs : List (TField K R)) (αr αc : R) (S0 S1 P0 P1 os : Int) (mask : Option Extent) : List (Fld K) :=
-  fs.filterMap fun t => propagateField t αr αc (outExtent (S0 * os) (S1 * os) mask) (P0 * os) (P1 * os)
+  fs.filterMap fun t => propagateField t αr αc (outExtent (Gen.dftShapeOut S0 S1 os).1 (Gen.dftShapeOut S0 S1 os).2 mask)
+    (Gen.dftPropShapeOut P0 P1 os).1 (Gen.dftPropShapeOut P0 P1 os).2
 end
 
 /-- value of an optional output field on the infinite zero-padded plane (`none` = no field was produced = zero) -/
